@@ -78,6 +78,8 @@ PROPS = {
              'cases': {'quick': 300, 'thorough': 6000}, 'shards': {'quick': 1, 'thorough': 2}, 'max_size': 100},
             {'src': 'C08.cpp', 'configs': ['SE2d', 'SO3d', 'SE3d', 'SGal3d', 'SE3f', 'SO2f'], 'tag': '-ndebug', 'defs': ['-DNDEBUG'],
              'cases': {'quick': 200, 'thorough': 4000}, 'shards': {'quick': 1, 'thorough': 1}, 'max_size': 100},
+            {'kind': 'fuzz', 'tiers': ['thorough'], 'src': 'C08.cpp', 'configs': ['SE2d', 'SO3d', 'SE3d', 'SGal3d', 'SE3f', 'SO2f', 'B_SE3_SO2_R3_d', 'SE_2_3d'],
+             'seconds': {'quick': 20, 'thorough': 600}, 'jobs': 2, 'max_len': 8192},
         ],
     },
     'C09': {
@@ -100,6 +102,8 @@ PROPS = {
              'defs': ['-fsanitize=address,undefined', '-fno-sanitize-recover=undefined', '-fno-omit-frame-pointer'],
              'cases': {'quick': 1500, 'thorough': 60000}, 'shards': {'quick': 1, 'thorough': 2},
              'case_scale': {'B_SGal3_SE2_SE23_SO3_R1_d': 0.3}},
+            {'kind': 'fuzz', 'tiers': ['thorough'], 'src': 'C10.cpp', 'configs': ['SE2d', 'SO3d', 'SE3d', 'SGal3d', 'SE3f', 'B_SE3_SO2_R3_d', 'R3d', 'SO2d'],
+             'seconds': {'quick': 20, 'thorough': 600}, 'jobs': 2, 'max_len': 2048},
         ],
     },
     'C12': {
@@ -122,6 +126,8 @@ PROPS = {
              'cases': {'quick': 6000, 'thorough': 300000}, 'shards': {'quick': 1, 'thorough': 2}},
             {'src': 'C13.cpp', 'configs': ['SO2d', 'SE2d', 'SO3d', 'SE3d', 'SE_2_3d', 'SGal3d', 'SE3f', 'B_SE3_SO2_R3_f'], 'tag': '-ndebug', 'defs': ['-DNDEBUG'],
              'cases': {'quick': 3000, 'thorough': 100000}, 'shards': {'quick': 1, 'thorough': 1}},
+            {'kind': 'fuzz', 'tiers': ['thorough'], 'src': 'C13.cpp', 'configs': ['SO2d', 'SE2d', 'SO3d', 'SE3d', 'SE_2_3d', 'SGal3d', 'SE3f', 'B_SE3_SO2_R3_f'],
+             'seconds': {'quick': 20, 'thorough': 600}, 'jobs': 2, 'max_len': 2048},
         ],
     },
     'C14': {
@@ -171,6 +177,8 @@ PROPS = {
              'defs': ['-fsanitize=address,undefined', '-fno-sanitize-recover=undefined', '-fno-omit-frame-pointer'],
              'env': {'ASAN_OPTIONS': 'hard_rss_limit_mb=4000:detect_leaks=0:allocator_may_return_null=1'},
              'cases': {'quick': 160, 'thorough': 6000}, 'shards': {'quick': 2, 'thorough': 4}, 'timeout': {'quick': 900, 'thorough': 7200}},
+            {'kind': 'fuzz', 'tiers': ['thorough'], 'src': 'C17.cpp', 'configs': ['SE2d', 'SO3d', 'SE3d', 'R3d'], 'rc_tag': '-asanrc',
+             'seconds': {'quick': 20, 'thorough': 600}, 'jobs': 4, 'max_len': 4096},
         ],
     },
     'C18': {
